@@ -97,6 +97,7 @@ pub const TEMPLATES: &[&str] = &[
     "err-rule",
     "err-wide-text",
     "err-syntax-after-doc-lint",
+    "err-file-attribute-without-module",
     "err-base-not-an-interface",
     "err-underlying-not-a-primitive",
     // Known finding (C07): a cycle that the compiler does not diagnose but dies of (stack overflow). Never drawn at
@@ -359,6 +360,14 @@ pub fn instantiate(template: &'static str, rng: &mut Rng) -> Program {
             p.files.push(f("sx.slice", text));
             p.class = Class::Error;
             p.codes = vec!["E002"];
+        }
+        "err-file-attribute-without-module" => {
+            // a file that declares no module can still carry file-level attributes, and they are validated
+            let attr = *rng.pick(&["[[deprecated]]", "[[oneway]]", "[[compress(Args)]]", "[[allow(All)]]\n[[allow(Deprecated)]]\n[[oneway]]"]);
+            p.files.push(f("ok.slice", format!("module Fa{u}\nstruct S {{ a: int32 }}\n\n{}", filler(rng, "Fa", fill))));
+            p.files.push(f("attrs_only.slice", format!("{attr}\n// nothing else in here\n")));
+            p.class = Class::Error;
+            p.codes = vec!["E023"];
         }
         "err-base-not-an-interface" => {
             let base = *rng.pick(&["int32", "Sequence<int32>", "Dictionary<string, bool>", "string"]);
